@@ -14,6 +14,9 @@ fn main() {
         std::env::set_var("SSL_CERT_FILE", "/dev/null");
         std::env::set_var("SSL_CERT_DIR", "/nonexistent");
     }
+    if std::env::var_os("VERIF_LIB_STDOUT").is_none() {
+        engine::report::silence_library_stdout();
+    }
     let args: Vec<String> = std::env::args().skip(1).collect();
     if args.is_empty() {
         usage();
@@ -36,7 +39,8 @@ fn main() {
         };
         let id = v["property"].as_str().unwrap_or("").to_string();
         let section = v["section"].as_str().unwrap_or("").to_string();
-        let code = rdpcheck::run_property(&id, Tier::Quick, Some((section, v["case"].clone())));
+        let case = if v["case"].is_null() && v["bytes_hex"].is_string() { serde_json::json!({"__bytes": v["bytes_hex"]}) } else { v["case"].clone() };
+        let code = rdpcheck::run_property(&id, Tier::Quick, Some((section, case)));
         std::process::exit(code);
     }
     let id = args[0].clone();
